@@ -27,7 +27,7 @@ CHAR = {
     "C06": [r"^release$", r"^drain$", r"^masscopy$", r"^ctr_"], "C07": [r"^bin$", r"^ctr_"],
     "C08": [r"^REACH_"], "C09": [r"IMAGE", r"_MULTIPLY$"], "C10": [r"^copy:"],
     "C11": [r"^iter", r"^card_ok$", r"^counts$"], "C12": [r"^bin$"],
-    "C13": [r"^reorder:"], "C14": [r"^io:"], "C15": [r"^index:convert$"],
+    "C13": [r"^reorder:"], "C14": [r"^io(read)?:"], "C15": [r"^index:convert$"],
     "C16": [r"^misuse:"], "C17": [r"^killforest$", r"^killdomain$", r"^restart$"],
     "C18": [r"."], "C20": [r"^satpart:"],
 }
